@@ -315,6 +315,17 @@ func runCase(p params, dir string) error {
 	// phase 1: concurrent
 	var wg sync.WaitGroup
 	start := make(chan struct{})
+	var stopAt time.Time
+	if p.Path == "logger+rolling" {
+		// aim the concurrent phase at a real rotation boundary: begin just before the next second
+		// and keep logging (repeating the goroutine's event list with fresh sequence numbers) until
+		// the boundary has passed
+		now := time.Now()
+		next := now.Truncate(time.Second).Add(time.Second)
+		time.Sleep(next.Sub(now) - 25*time.Millisecond)
+		stopAt = next.Add(25 * time.Millisecond)
+	}
+	extra := make([][]event, p.G)
 	for g := 0; g < p.G; g++ {
 		wg.Add(1)
 		go func() {
@@ -323,10 +334,23 @@ func runCase(p params, dir string) error {
 			for _, e := range events[g] {
 				logOne(e)
 			}
+			for seq := p.PerG; !stopAt.IsZero() && time.Now().Before(stopAt) && seq < 4000; seq++ {
+				fill := strings.Repeat(string(rune('a'+(g*7+seq)%26)), p.Sizes[(g+seq)%len(p.Sizes)]%600)
+				e := event{g, seq, fill, crc32.ChecksumIEEE([]byte(strconv.Itoa(g) + "/" + strconv.Itoa(seq) + "/" + fill))}
+				logOne(e)
+				extra[g] = append(extra[g], e)
+			}
 		}()
 	}
 	close(start)
 	wg.Wait()
+	for g := range extra {
+		events[g] = append(events[g], extra[g]...)
+		total += len(extra[g])
+	}
+	if !stopAt.IsZero() {
+		vk.Class("rolling:phase-straddles-a-boundary")
+	}
 	conc := read()
 	// phase 2: the same events one at a time, same call site, same fixed time
 	sink.fast.Store(true)
